@@ -158,6 +158,29 @@ ROWS = {
 ROWS["tdint_v"] = dict(ROWS["int_v"], yaml="TypeID {n}", cxx="TypeID {n}")
 ROWS["tdstr_in"] = dict(ROWS["cstr_in"], yaml="const Name *{n}", cxx="const Name *{n}")
 
+# every other native scalar type by value and as a result (typemap.py gives each type its own f_kind / f_cast /
+# PY_format / LUA fields; docs/types.rst): key, C type, value class, Fortran declaration, values
+NATIVE_KINDS = [
+    ("short", "short", "int", "integer(C_SHORT)", ["0", "1", "-1", "32767", "-32768", "42"]),
+    ("ushort", "unsigned short", "int", "integer(C_SHORT)", ["0", "1", "7", "32767", "12", "42"]),
+    ("uint", "unsigned int", "int", "integer(C_INT)", ["0", "1", "7", "2147483647", "12", "42"]),
+    ("ulong", "unsigned long", "int", "integer(C_LONG)", ["0", "1", "7", "2147483647", "12", "42"]),
+    ("llong", "long long", "int", "integer(C_LONG_LONG)", ["0", "1", "-1", "2147483647", "-2147483647", "42"]),
+    ("float", "float", "dbl", "real(C_FLOAT)", ["0.0", "2.5", "-0.25", "1024.75", "-3.0", "0.5"]),
+    ("size", "size_t", "int", "integer(C_SIZE_T)", ["0", "1", "7", "2147483647", "12", "42"]),
+    ("i8", "int8_t", "int", "integer(C_INT8_T)", ["0", "1", "-1", "127", "-128", "42"]),
+    ("i64", "int64_t", "int", "integer(C_INT64_T)", ["0", "1", "-1", "2147483647", "-2147483647", "42"]),
+    ("u16", "uint16_t", "int", "integer(C_INT16_T)", ["0", "1", "7", "32767", "12", "42"]),
+    ("u32", "uint32_t", "int", "integer(C_INT32_T)", ["0", "1", "7", "2147483647", "12", "42"]),
+]
+KIND_ROWS, KIND_RESULTS = [], []
+for _k, _T, _ty, _fd, _vals in NATIVE_KINDS:
+    _vt = "vt_dbl" if _ty == "dbl" else "vt_int"
+    ROWS[_k + "_v"] = dict(yaml=_T + " {n}", cxx=_T + " {n}", ty=_ty, intent="in", lib_in=_vt + "({n});",
+                           acc=("acc += {w} * ((long)({n} * 4.0) % 1000);" if _ty == "dbl" else "acc += {w} * (long)({n} % 100);"),
+                           c_decl=_T + " {n} = {v};", c_arg="{n}", c_in=_vt + "({n});", vals=_vals, ctype=_T)
+    KIND_ROWS.append(_k + "_v")
+
 RESULTS = {
     "void": dict(yaml="void", cxx="void", ty="none"),
     "int": dict(yaml="int", cxx="int", ty="int", lib_make="int rv = (int)(acc % 100000) + 3;", lib_out="vt_int(rv);",
@@ -198,6 +221,12 @@ RESULTS = {
 
 
 RESULTS["tdint"] = dict(RESULTS["int"], yaml="TypeID", cxx="TypeID", lib_make="TypeID rv = (TypeID)(acc % 100000) + 3;")
+
+for _k, _T, _ty, _fd, _vals in NATIVE_KINDS:
+    _vt = "vt_dbl" if _ty == "dbl" else "vt_int"
+    RESULTS[_k] = dict(yaml=_T, cxx=_T, ty=_ty, lib_make="%s rv = (%s)((acc %% 100) + 3)%s;" % (_T, _T, " + 0.75f" if _ty == "dbl" else ""),
+                       lib_out=_vt + "(rv);", c_decl=_T + " rv;", c_out=_vt + "(rv);")
+    KIND_RESULTS.append(_k)
 
 def F(name, result, params, **kw):
     d = {"name": name, "result": result, "params": params, "kind": "func"}
@@ -317,6 +346,12 @@ FROWS = {
 FROWS["tdint_v"] = dict(FROWS["int_v"])
 FROWS["tdstr_in"] = dict(FROWS["cstr_in"])
 
+for _k, _T, _ty, _fd, _vals in NATIVE_KINDS:
+    if _ty == "dbl":
+        FROWS[_k + "_v"] = dict(decl=_fd + " :: {n}", set="{n} = {v}", arg="{n}", fin="call vt_dbl(real({n}, C_DOUBLE))", vk="flt")
+    else:
+        FROWS[_k + "_v"] = dict(decl=_fd + " :: {n}", set="{n} = {v}", arg="{n}", fin="call vt_int(int({n}, C_LONG))", vk="int")
+
 FRESULTS = {
     "void": dict(),
     "int": dict(decl="integer(C_INT) :: rv", fout="call vt_int(int(rv, C_LONG))"),
@@ -334,6 +369,10 @@ FRESULTS = {
 
 
 FRESULTS["tdint"] = dict(FRESULTS["int"])
+
+
+for _k, _T, _ty, _fd, _vals in NATIVE_KINDS:
+    FRESULTS[_k] = dict(decl=_fd + " :: rv", fout=("call vt_dbl(real(rv, C_DOUBLE))" if _ty == "dbl" else "call vt_int(int(rv, C_LONG))"))
 
 
 def vector_cases():
